@@ -946,6 +946,12 @@ func (vm *VM) execBuildArray() error {
 	}
 
 	elemCount := int(operand)
+	// The elements come off the stack, so a count larger than the stack can
+	// only end in a stack underflow - after allocating elemCount slots, which
+	// for a hostile operand (0x7fffffff) is tens of gigabytes.
+	if elemCount > len(vm.stack) {
+		return fmt.Errorf("stack underflow: array of %d elements with %d values on the stack", elemCount, len(vm.stack))
+	}
 	arr := make([]Value, elemCount)
 
 	// Pop in reverse order
@@ -1256,6 +1262,10 @@ func (vm *VM) execCall() error {
 	}
 
 	argCount := int(operand)
+	// Same bound as for arrays: the arguments (and the function name) are on the stack.
+	if argCount >= len(vm.stack) {
+		return fmt.Errorf("stack underflow: call with %d arguments with %d values on the stack", argCount, len(vm.stack))
+	}
 
 	// Pop arguments
 	args := make([]Value, argCount)
